@@ -244,4 +244,22 @@ def fOutcome : Option (Nat × Nat × Nat × Nat) := do
   let (_, _, r5) ← (increase 64 (10 ^ 9) m4 wPerp wPrices p2 0 0).toOption
   pure (r1.fees.fundAmount, r2.fees.fundAmount, r5.fees.fundAmount, r5.fees.claimS)
 
+/-! ### witness of F-C10 -/
+
+/-- position impact factors 2·10⁻⁵ (both signs), exponent 2; max positive impact cap 5 %, max
+negative impact cap 0.5 %; no fees. -/
+def cCfg : MarketConfig := { wCfg with positionImpact := ⟨2 * 10 ^ 9, 20000, 20000⟩, orderFee := ⟨0, 0, 0, 0⟩ }
+def cPerp : PerpCfg := ⟨10 ^ 9, 10 ^ 9, 10 ^ 7, 10 ^ 7, 5 * 10 ^ 7, 5 * 10 ^ 6, 25 * 10 ^ 5, 0, 0, 0⟩
+/-- existing long open interest of 1000 USD, impact pool holding 10·10⁹ index tokens. -/
+def cM0 : Market :=
+  { cfg := cCfg, primary := ⟨10 ^ 12, 10 ^ 14⟩, oiL := ⟨0, 1000 * 10 ^ 9⟩, oitL := ⟨0, 10 ^ 10⟩, collL := ⟨0, 500 * 10 ^ 9⟩,
+    positionImpact := ⟨10 ^ 10, 0⟩ }
+
+/-- open a 500 USD short with 100·10⁹ collateral tokens and close it at once at the same prices:
+`(collateral after opening, open impact, close impact, impact diff, output, claimable for the user)`. -/
+def cOutcome : Option (Nat × Int × Int × Nat × Nat × Nat) := do
+  let (m1, p1, r1) ← (increase 64 (10 ^ 9) cM0 cPerp wPrices { isLong := false, collLong := false } (100 * 10 ^ 9) (500 * 10 ^ 9)).toOption
+  let (_, _, r2) ← (decrease 64 (10 ^ 9) m1 cPerp wPrices p1 (500 * 10 ^ 9) 0 ⟨false, false, true⟩).toOption
+  pure (p1.collateral, r1.impactValue, r2.impactValue, r2.impactDiff, r2.output, r2.userOut)
+
 end Gmx.Lem
